@@ -27,3 +27,18 @@ Theorem C19_star_accepts_all_but_ignore : forall tags,
                              end) (header content))).
 Proof. exact star_accepts_all_but_ignore. Qed.
 Print Assumptions C19_star_accepts_all_but_ignore.
+From GI Require Import Imports.Read Imports.Scan Imports.ScanFacts.
+
+(* ---- the consumer of MatchFile: which directory entries imports.ScanDir looks at *)
+Theorem C19_scan_considers : forall tags f,
+  considered tags f = true <->
+  e_regular f = true /\ has_prefix skip_prefix (e_name f) = false
+  /\ has_suffix go_suffix (e_name f) = true /\ ~ rejected (e_name f) tags.
+Proof. exact considered_spec. Qed.
+Print Assumptions C19_scan_considers.
+
+(* an entry that is not considered contributes nothing, whatever it contains *)
+Theorem C19_scan_frame_dir : forall tags f l1 l2, considered tags f = false ->
+  scan_dir tags (l1 ++ f :: l2) = scan_dir tags (l1 ++ l2).
+Proof. exact scan_frame_dir. Qed.
+Print Assumptions C19_scan_frame_dir.
